@@ -92,16 +92,42 @@ def updateHash (existing : DataHash) (defAlgLen digestLen : Nat) : DataHash :=
 `reserve_size()` is `r`: a CBOR array of `r − hdr r` zeros. -/
 def daPlaceholder (r : Nat) : Nat := str (r - hdr r)
 
+/-- What `DynamicAssertion::content` returns (`DynamicAssertionContent`). -/
+inductive DaKind
+  | cbor
+  | json
+  | binary
+  deriving DecidableEq, Repr
+
+/-- A dynamic assertion of the signer: its `reserve_size()`, the length of the content it
+finally returns, and the kind of that content. -/
+structure Da where
+  reserve : Nat
+  content : Nat
+  kind : DaKind
+  deriving DecidableEq, Repr
+
+/-- `write_dynamic_assertions`: CBOR and JSON contents replace the placeholder slot (the JSON
+content box has the same 8-byte box header as the CBOR one); a `Binary` content is dropped
+(the match arm is empty) and the zero-filled placeholder slot stays in the manifest. -/
+def daFinal (d : Da) : Nat :=
+  match d.kind with
+  | .binary => daPlaceholder d.reserve
+  | _ => d.content
+
 inductive Res
   | ok (len : Nat)
   | tooLarge
   deriving DecidableEq, Repr
 
-/-- `Builder::sign_embeddable`, size handling after `sign_manifest` returned `jumbf` bytes. -/
-def signEmbeddable (placeholderLen : Option Nat) (hasDataHash : Bool) (jumbf : Nat) : Res :=
+/-- `Builder::sign_embeddable`, size handling after `sign_manifest` returned `jumbf` bytes.
+`placeholderLen` is the field `placeholder_jumbf_len` (`none`: `placeholder()` was not called on
+this Builder value — "Mode 2"); `guarded` is "a DataHash or a BoxHash assertion is present"
+(a BmffHash binding is not guarded: the caller reserves room for Merkle leaves). -/
+def signEmbeddable (placeholderLen : Option Nat) (guarded : Bool) (jumbf : Nat) : Res :=
   match placeholderLen with
   | some len =>
-    if jumbf > len && hasDataHash then .tooLarge
+    if jumbf > len && guarded then .tooLarge
     else if jumbf < len then .ok len   -- `jumbf.resize(len, 0)`
     else .ok jumbf
   | none => .ok jumbf
@@ -117,8 +143,11 @@ structure Flow where
   /-- argument of `set_data_hash_exclusions`, `none` = not called -/
   excl : Option (List Range)
   rehash : Bool
-  /-- dynamic assertions: (reserve_size, length of the content finally returned) -/
-  das : List (Nat × Nat)
+  /-- dynamic assertions of the signer -/
+  das : List Da
+  /-- the Builder was rebuilt from its serialised definition (JSON) between `placeholder` and
+  `sign_embeddable`: `placeholder_jumbf_len` is `#[serde(skip)]`, the new value has `None` -/
+  lost : Bool
   deriving Repr
 
 /-- DataHash held by the builder when `placeholder` serialises the manifest. -/
@@ -126,7 +155,7 @@ def Flow.dh0 (f : Flow) : DataHash := f.pre.getD (placeholderDH f.defAlgLen f.di
 
 /-- JUMBF length recorded by `Builder::placeholder` (`placeholder_jumbf_len`). -/
 def Flow.placeholderLen (f : Flow) : Nat :=
-  f.base + dhSize f.dh0 + (f.das.map (fun d => daPlaceholder d.1)).sum
+  f.base + dhSize f.dh0 + (f.das.map (fun d => daPlaceholder d.reserve)).sum
 
 /-- DataHash held by the builder when `sign_embeddable` runs. -/
 def Flow.dhFinal (f : Flow) : DataHash :=
@@ -137,9 +166,57 @@ def Flow.dhFinal (f : Flow) : DataHash :=
 
 /-- JUMBF length of the signed manifest before padding. -/
 def Flow.signedLen (f : Flow) : Nat :=
-  f.base + dhSize f.dhFinal + (f.das.map (fun d => d.2)).sum
+  f.base + dhSize f.dhFinal + (f.das.map daFinal).sum
 
-def Flow.run (f : Flow) : Res := signEmbeddable (some f.placeholderLen) true f.signedLen
+/-- `placeholder_jumbf_len` as `sign_embeddable` finds it. -/
+def Flow.recorded (f : Flow) : Option Nat := if f.lost then none else some f.placeholderLen
+
+def Flow.run (f : Flow) : Res := signEmbeddable f.recorded true f.signedLen
+
+/-- The placeholder workflow with a caller-supplied BoxHash (guarded) or a BmffHash (not
+guarded) binding: only the CBOR size of that assertion at the two moments matters. -/
+structure OFlow where
+  base : Nat
+  guarded : Bool
+  /-- CBOR size of the binding assertion when `placeholder` serialised the manifest -/
+  size0 : Nat
+  /-- … when `sign_embeddable` runs (after `update_hash_from_stream`) -/
+  size1 : Nat
+  das : List Da
+  deriving Repr
+
+def OFlow.placeholderLen (f : OFlow) : Nat :=
+  f.base + f.size0 + (f.das.map (fun d => daPlaceholder d.reserve)).sum
+
+def OFlow.signedLen (f : OFlow) : Nat := f.base + f.size1 + (f.das.map daFinal).sum
+
+def OFlow.run (f : OFlow) : Res := signEmbeddable (some f.placeholderLen) f.guarded f.signedLen
+
+/-- The legacy pair `data_hashed_placeholder` / `sign_data_hashed_embeddable`
+(`Store::get_data_hashed_embeddable_manifest` → `Claim::update_data_hash` →
+`DataHash::pad_to_size(original_len)`): the DataHash handed to the second call is rebuilt as
+`"jumbf manifest"` / claim algorithm / its exclusions / its hash and padded to the size of the
+placeholder's assertion. `pad_to_size` (C14: `datahash_pad_exact`, `pad2 = None`) reaches every
+size ≥ the unpadded one and fails below it. -/
+structure Legacy where
+  defAlgLen : Nat
+  /-- DataHash in the builder when `data_hashed_placeholder` ran (`none`: it adds ten dummy
+  exclusions, name "jumbf manifest", "sha256", *no* hash) -/
+  pre : Option DataHash
+  /-- exclusions and hash length of the DataHash passed to `sign_data_hashed_embeddable` -/
+  excl : List Range
+  hashLen : Nat
+  deriving Repr
+
+def Legacy.dh0 (f : Legacy) : DataHash :=
+  f.pre.getD (placeholderDH 6 0)
+
+def Legacy.adjusted (f : Legacy) : DataHash :=
+  { newWith 14 f.defAlgLen f.excl with hashLen := f.hashLen }
+
+/-- `ok`: the signed manifest has the placeholder's length; `tooLarge`: `JumbfCreationError`. -/
+def Legacy.run (f : Legacy) (placeholderLen : Nat) : Res :=
+  if dhSize f.adjusted ≤ dhSize f.dh0 then .ok placeholderLen else .tooLarge
 
 /-! ### line protocol -/
 
@@ -162,14 +239,36 @@ def parsePre (s : String) (algLen : Nat) : Option DataHash :=
              hashLen := h.toNat?.getD 0
              padLen := p.toNat?.getD 0
              pad2 := none }
+    | [n, a, h, p, e] =>
+      -- five fields: name (`-` = `None`), alg (`-` = `None`, otherwise the definition's), hash, pad, exclusions
+      let ex := parseRanges e
+      some { exclusions := if ex.isEmpty then none else some ex
+             nameLen := if n == "-" then none else some (n.toNat?.getD 0)
+             algLen := if a == "-" then none else some algLen
+             hashLen := h.toNat?.getD 0
+             padLen := p.toNat?.getD 0
+             pad2 := none }
     | _ => none
 
-def parseDas (s : String) : List (Nat × Nat) :=
+def parseKind (s : String) : DaKind :=
+  if s == "j" then .json else if s == "b" then .binary else .cbor
+
+def parseDas (s : String) : List Da :=
   if s == "-" then []
   else (s.splitOn ",").map fun t =>
     match t.splitOn ":" with
-    | [a, b] => (a.toNat?.getD 0, b.toNat?.getD 0)
-    | _ => (0, 0)
+    | [a, b] => ⟨a.toNat?.getD 0, b.toNat?.getD 0, .cbor⟩
+    | [a, b, k] => ⟨a.toNat?.getD 0, b.toNat?.getD 0, parseKind k⟩
+    | _ => ⟨0, 0, .cbor⟩
+
+/-- Reply: the length class of the result relative to the placeholder JUMBF length `ph`
+(`signed` = JUMBF length before padding). -/
+def reply (ph signed : Nat) : Res → String
+  | .tooLarge => "err toolarge"
+  | .ok len =>
+    if len == ph then "ok slack=" ++ toString (len - signed)
+    else if len < ph then "ok shorter=" ++ toString (ph - len)
+    else "ok longer=" ++ toString (len - ph)
 
 def handle (toks : List String) : String :=
   match toks with
@@ -183,10 +282,27 @@ def handle (toks : List String) : String :=
         pre := parsePre (field rest "pre") alg
         excl := if e == "none" then none else some (parseRanges e)
         rehash := field rest "rehash" == "1"
+        das := parseDas (field rest "da")
+        lost := field rest "lost" == "1" }
+    reply f.placeholderLen f.signedLen f.run
+  | "oflow" :: rest =>
+    let f : OFlow :=
+      { base := 0
+        guarded := field rest "guarded" == "1"
+        size0 := (field rest "s0").toNat?.getD 0
+        size1 := (field rest "s1").toNat?.getD 0
         das := parseDas (field rest "da") }
-    match f.run with
-    | .ok len => "ok slack=" ++ toString (len - f.signedLen)
-    | .tooLarge => "err toolarge"
+    reply f.placeholderLen f.signedLen f.run
+  | "legacy" :: rest =>
+    let alg := (field rest "alg").toNat?.getD 0
+    let f : Legacy :=
+      { defAlgLen := alg
+        pre := parsePre (field rest "pre") alg
+        excl := parseRanges (field rest "excl")
+        hashLen := (field rest "hash").toNat?.getD 0 }
+    match f.run 0 with
+    | .ok _ => "ok slack=0"
+    | .tooLarge => "err toosmall"
   | _ => "bad-op"
 
 end C2pa.C15
